@@ -16,6 +16,7 @@ import (
 	"sync"
 
 	"github.com/labstack/echo/v4"
+	"github.com/labstack/echo/v4/middleware"
 	"github.com/labstack/gommon/log"
 )
 
@@ -32,11 +33,16 @@ type c05Step struct {
 	Req      *rReq    `json:"req,omitempty"`
 	Prog     []c05HOp `json:"prog,omitempty"`
 	Probe    bool     `json:"probe,omitempty"` // the observer names six parameters for a moment to look into the spare value slots
+	// Wrap (with Register): the route carries a net/http middleware adapted with echo.WrapMiddleware
+	Wrap bool `json:"wrap,omitempty"`
 }
 
 type c05Case struct {
 	Steps      []c05Step `json:"steps"`
 	Concurrent int       `json:"concurrent,omitempty"` // >0: serve the requests from that many goroutines (oracle only)
+	// Recover: the application installs middleware.Recover() in front of everything: a request whose handler
+	// panics midway is answered with 500 and its context goes back to the pool as the handler left it
+	Recover bool `json:"recover,omitempty"`
 }
 
 type c05Logger struct {
@@ -97,6 +103,97 @@ type c05Env struct {
 	serving    int
 	leak       string
 	concurrent bool
+	recover    bool
+	// a second Echo instance of the application (what it mounts below a path with echo.WrapHandler, or serves
+	// sub-requests with): fixed routes, the same observer
+	mountOnce sync.Once
+	mountEnv  *c05Env
+}
+
+// c05MountRoutes are the routes of the second instance
+var c05MountRoutes = []rRoute{{Method: "GET", Path: "/"}, {Method: "GET", Path: "/a/:x"}, {Method: "GET", Path: "/b/:x/:y"}}
+
+func (env *c05Env) mount() *c05Env {
+	env.mountOnce.Do(func() {
+		m := c05NewEnvR(env.recover)
+		m.concurrent = true // (no request-scoped loggers are installed there)
+		for _, r := range c05MountRoutes {
+			m.register(r, false)
+		}
+		env.mountEnv = m
+	})
+	return env.mountEnv
+}
+
+// c05StdWriter / c05Std: a net/http middleware as applications adapt them with echo.WrapMiddleware; it puts a
+// writer of its own around the one it is given
+type c05StdWriter struct {
+	http.ResponseWriter
+	st    *c05ReqState
+	depth int
+}
+
+// A writer chain that leads back to this writer would recurse until the process dies; the writer notices,
+// breaks the loop and reports it as an observation of the request.
+func (w *c05StdWriter) enter() bool {
+	w.depth++
+	if w.depth > 3 {
+		if w.st != nil {
+			w.st.loop = true
+		}
+		return false
+	}
+	return true
+}
+func (w *c05StdWriter) Header() http.Header {
+	defer func() { w.depth-- }()
+	if !w.enter() {
+		return http.Header{}
+	}
+	return w.ResponseWriter.Header()
+}
+func (w *c05StdWriter) WriteHeader(code int) {
+	defer func() { w.depth-- }()
+	if w.enter() {
+		w.ResponseWriter.WriteHeader(code)
+	}
+}
+func (w *c05StdWriter) Write(b []byte) (int, error) {
+	defer func() { w.depth-- }()
+	if !w.enter() {
+		return len(b), nil
+	}
+	return w.ResponseWriter.Write(b)
+}
+func (w *c05StdWriter) Flush() {
+	defer func() { w.depth-- }()
+	if w.enter() {
+		http.NewResponseController(w.ResponseWriter).Flush()
+	}
+}
+
+// c05WriterLoop: does the chain of writers behind w lead back to a writer it already contains?
+func c05WriterLoop(w http.ResponseWriter) bool {
+	seen := map[http.ResponseWriter]bool{}
+	for i := 0; i < 32 && w != nil; i++ {
+		if seen[w] {
+			return true
+		}
+		seen[w] = true
+		u, ok := w.(interface{ Unwrap() http.ResponseWriter })
+		if !ok {
+			break
+		}
+		w = u.Unwrap()
+	}
+	return false
+}
+
+func c05Std(next http.Handler) http.Handler {
+	return http.HandlerFunc(func(w http.ResponseWriter, r *http.Request) {
+		st, _ := r.Context().Value(c05CtxKey{}).(*c05ReqState)
+		next.ServeHTTP(&c05StdWriter{ResponseWriter: w, st: st}, r)
+	})
 }
 
 var c05SharedPristine = []string{"s1", "s2", "s3", "s4", "s5", "s6"}
@@ -104,25 +201,40 @@ var c05SharedPristine = []string{"s1", "s2", "s3", "s4", "s5", "s6"}
 type c05ReqState struct {
 	flushed bool // the handler flushed its response
 	swapped bool // the handler replaced the response object
-	id    int
-	probe bool // look into the spare value slots before the handler runs
-	prog  []c05HOp
-	obs   c05Obs
-	inner []c05Inner
+	id      int
+	probe   bool // look into the spare value slots before the handler runs
+	prog    []c05HOp
+	obs     c05Obs
+	inner   []c05Inner
+	fwd     []c05Fwd
+	loop    bool // a response writer of this request was reached again through its own chain of writers
 }
 
 type c05Inner struct {
-	q   rReq
-	id  int
-	obs c05Obs
+	q     rReq
+	id    int
+	obs   c05Obs
+	mount bool // served by the second instance
+}
+
+// c05Fwd: what a forwarded request did to the response it was served on
+type c05Fwd struct {
+	committed bool
+	status    int
+	grew      int64
 }
 
 const c05Key = "c05-state"
 
-func c05NewEnv() *c05Env {
+func c05NewEnv() *c05Env { return c05NewEnvR(false) }
+
+func c05NewEnvR(rec bool) *c05Env {
 	e := echo.New()
 	e.Logger.SetOutput(nopWriter{})
-	env := &c05Env{e: e, shared: append([]string{}, c05SharedPristine...)}
+	env := &c05Env{e: e, shared: append([]string{}, c05SharedPristine...), recover: rec}
+	if rec {
+		e.Use(middleware.RecoverWithConfig(middleware.RecoverConfig{DisablePrintStack: true, DisableStackAll: true, StackSize: 1 << 10}))
+	}
 	// the application derives the client address from a header of its own (a custom IPExtractor)
 	e.IPExtractor = func(r *http.Request) string { return r.Header.Get("X-Client") }
 	e.Use(func(next echo.HandlerFunc) echo.HandlerFunc {
@@ -186,6 +298,12 @@ func c05NewEnv() *c05Env {
 			o.status = c.Response().Status
 			o.size = c.Response().Size
 			o.committed = c.Response().Committed
+			// the chain of writers behind the response ends at the writer this request was given; if it leads back
+			// to a writer it already contains, every write would recurse until the process dies: report and stop
+			if c05WriterLoop(c.Response()) {
+				st.loop = true
+				return nil
+			}
 			return next(c)
 		}
 	})
@@ -194,13 +312,40 @@ func c05NewEnv() *c05Env {
 
 type c05CtxKey struct{}
 
-func (env *c05Env) register(r rRoute) {
+func (env *c05Env) register(r rRoute, wrap bool) {
 	hid := env.nroute
 	env.nroute++
+	var rmw []echo.MiddlewareFunc
+	if wrap {
+		rmw = append(rmw, echo.WrapMiddleware(c05Std))
+	}
+	// snap: what the handler can see of its own context (resp = with the response bookkeeping)
+	snapOf := func(c echo.Context, resp bool) string {
+		vals := "PANIC"
+		func() {
+			defer func() { recover() }()
+			vals = strings.Join(c.ParamValues(), ",")
+		}()
+		cur, _ := c.Request().Context().Value(c05CtxKey{}).(*c05ReqState)
+		id := -1
+		if cur != nil {
+			id = cur.id
+		}
+		s := fmt.Sprintf("path=%s names=%s values=%s k=%v,%v,%v,%v q=%s req=%d", c.Path(), strings.Join(c.ParamNames(), ","), vals,
+			c.Get("k0"), c.Get("k1"), c.Get("k2"), c.Get("k3"), c.QueryParam("q"), id)
+		if resp {
+			s += fmt.Sprintf(" status=%d size=%d committed=%v", c.Response().Status, c.Response().Size, c.Response().Committed)
+		}
+		return s
+	}
 	env.e.Add(r.Method, r.Path, func(c echo.Context) error {
 		st := c.Request().Context().Value(c05CtxKey{}).(*c05ReqState)
 		st.obs.kind = 0
 		st.obs.hid = hid
+		if c05WriterLoop(c.Response()) {
+			st.loop = true // (the route's own middleware may have put the response together anew)
+			return nil
+		}
 		if v := c.Get(echo.ContextKeyHeaderAllow); v != nil {
 			// the router leaves the Allow value of a 405 / automatic OPTIONS answer in the store of THAT request only;
 			// a request that is dispatched to a route has none
@@ -251,26 +396,91 @@ func (env *c05Env) register(r rRoute) {
 			case "nested":
 				// the handler serves another request on the same Echo, synchronously, and then looks at
 				// its own context again: the inner request must have had a context of its own
-				snap := func() string {
-					vals := "PANIC"
-					func() {
-						defer func() { recover() }()
-						vals = strings.Join(c.ParamValues(), ",")
-					}()
-					cur, _ := c.Request().Context().Value(c05CtxKey{}).(*c05ReqState)
-					id := -1
-					if cur != nil {
-						id = cur.id
-					}
-					return fmt.Sprintf("path=%s names=%s values=%s k=%v,%v,%v,%v q=%s req=%d status=%d size=%d committed=%v", c.Path(), strings.Join(c.ParamNames(), ","), vals,
-						c.Get("k0"), c.Get("k1"), c.Get("k2"), c.Get("k3"), c.QueryParam("q"), id, c.Response().Status, c.Response().Size, c.Response().Committed)
-				}
+				// (A = 1: the other request goes to the application's second Echo instance)
+				snap := func() string { return snapOf(c, true) }
 				before := snap()
-				inner := env.serve(1000+st.id, rReq{Method: "GET", Path: op.S}, nil)
+				target := env
+				if op.A == 1 {
+					target = env.mount()
+				}
+				inner := target.serve(1000+st.id, rReq{Method: "GET", Path: op.S}, nil)
 				if after := snap(); after != before {
 					st.obs.store = append(st.obs.store, "nested-request-clobbered-the-outer-context", before, after)
 				}
-				st.inner = append(st.inner, c05Inner{rReq{Method: "GET", Path: op.S}, 1000 + st.id, inner})
+				st.inner = append(st.inner, c05Inner{rReq{Method: "GET", Path: op.S}, 1000 + st.id, inner, op.A == 1})
+				if c05WriterLoop(c.Response()) {
+					st.loop = true
+					return nil
+				}
+			case "fanout":
+				// the handler fans out: op.A goroutines use THIS request's context store at the same time (Set and Get,
+				// keys of their own, a key another goroutine writes, one key all of them write) and are joined before
+				// the handler goes on.  Every value a goroutine set and nobody overwrote is read back; nothing but
+				// values of this request shows.
+				n, rounds := op.A, 3
+				bad := make([]string, n+1)
+				var wg sync.WaitGroup
+				for g := 0; g < n; g++ {
+					wg.Add(1)
+					go func(g int) {
+						defer wg.Done()
+						defer func() {
+							if r := recover(); r != nil {
+								bad[g] = fmt.Sprint("panic: ", r)
+							}
+						}()
+						own, other := "k"+strconv.Itoa(g), "k"+strconv.Itoa((g+1)%n)
+						for i := 0; i < rounds; i++ {
+							v := c05FanVal(st.id, g, i)
+							c.Set(own, v)
+							c.Set("fs", v)
+							if got := c.Get(own); got != v {
+								bad[g] = fmt.Sprintf("%s: set %d, read back %v", own, v, got)
+							}
+							for _, k := range []string{other, "fs"} {
+								if got, ok := c.Get(k).(int); ok && got >= 1000 && got/1000 != st.id {
+									bad[g] = fmt.Sprintf("%s holds %d, a value of another request", k, got)
+								}
+							}
+						}
+					}(g)
+				}
+				wg.Wait()
+				for g := 0; g < n; g++ {
+					if got := c.Get("k" + strconv.Itoa(g)); got != c05FanVal(st.id, g, rounds-1) {
+						bad[n] = fmt.Sprintf("after the goroutines were joined k%d holds %v, goroutine %d had set %d last", g, got, g, c05FanVal(st.id, g, rounds-1))
+					}
+				}
+				if fs, ok := c.Get("fs").(int); !ok || fs/1000 != st.id {
+					bad[n] = fmt.Sprintf("after the goroutines were joined the key all of them set holds %v", c.Get("fs"))
+				}
+				for _, b := range bad {
+					if b != "" {
+						st.obs.store = append(st.obs.store, "fanout-value-lost-or-foreign", b)
+						break
+					}
+				}
+			case "forward":
+				// the handler hands the request on: another request is served ON THIS REQUEST'S RESPONSE, by the same
+				// Echo (an internal redirect: e.ServeHTTP(c.Response(), r2)) or by the second instance (a mount:
+				// echo.WrapHandler(inner)).  The other request has a context of its own, with bookkeeping of its own;
+				// this context keeps everything but what was written to its response meanwhile.
+				before := snapOf(c, false)
+				target := env
+				if op.A == 1 {
+					target = env.mount()
+				}
+				r0 := *c.Response()
+				inner, _ := target.serve4(2000+st.id, rReq{Method: "GET", Path: op.S}, nil, false, c.Response())
+				if after := snapOf(c, false); after != before {
+					st.obs.store = append(st.obs.store, "forwarded-request-clobbered-the-outer-context", before, after)
+				}
+				st.inner = append(st.inner, c05Inner{rReq{Method: "GET", Path: op.S}, 2000 + st.id, inner, op.A == 1})
+				st.fwd = append(st.fwd, c05Fwd{committed: !r0.Committed && c.Response().Committed, status: c.Response().Status, grew: c.Response().Size - r0.Size})
+				if c05WriterLoop(c.Response()) {
+					st.loop = true
+					return nil
+				}
 			case "setRequest":
 				// the handler replaces the request (as a rewriting middleware would): same identity for the
 				// observer, another query string, and the query cache is filled from it
@@ -316,7 +526,7 @@ func (env *c05Env) register(r rRoute) {
 		}
 		_, err := c.Response().Write([]byte("x")) // make after-hooks of the response fire
 		return err
-	})
+	}, rmw...)
 }
 
 // borrowContext: AcquireContext / use / ReleaseContext, as an application does for work outside a request.
@@ -352,7 +562,20 @@ func (env *c05Env) serve2(id int, q rReq, prog []c05HOp) (c05Obs, []c05Inner) {
 }
 
 func (env *c05Env) serve3(id int, q rReq, prog []c05HOp, probe bool) (ro c05Obs, rin []c05Inner) {
+	st := env.serve5(id, q, prog, probe, nil)
+	return st.obs, st.inner
+}
+
+// serve4: like serve3, on the writer `on` (nil: a recorder of its own)
+func (env *c05Env) serve4(id int, q rReq, prog []c05HOp, probe bool, on http.ResponseWriter) (ro c05Obs, rin []c05Inner) {
+	st := env.serve5(id, q, prog, probe, on)
+	return st.obs, st.inner
+}
+
+func (env *c05Env) serve5(id int, q rReq, prog []c05HOp, probe bool, on http.ResponseWriter) (rst *c05ReqState) {
 	st := &c05ReqState{id: id, prog: prog, probe: probe}
+	rst = st
+	ro := &st.obs
 	if !env.concurrent {
 		outer := env.serving
 		env.serving = id
@@ -386,6 +609,25 @@ func (env *c05Env) serve3(id int, q rReq, prog []c05HOp, probe bool) (ro c05Obs,
 		req = req.WithContext(contextWith(req, st))
 		req.Header.Set("X-Client", "client-"+strconv.Itoa(id))
 		rec := httptest.NewRecorder()
+		defer func() {
+			if st.loop {
+				st.obs.store = append(st.obs.store, "response-writer-chain-leads-back-to-itself")
+			}
+		}()
+		if on != nil {
+			// (the status of a response that is committed already says nothing about this request: a 405 / automatic
+			// OPTIONS answer is recognised by the Allow header it sets)
+			on.Header().Del("Allow")
+			env.e.ServeHTTP(on, req)
+			if c05WriterLoop(on) {
+				st.loop = true
+				return
+			}
+			if st.obs.kind == 1 && on.Header().Get("Allow") != "" {
+				st.obs.kind = 2
+			}
+			return
+		}
 		env.e.ServeHTTP(rec, req)
 		if st.flushed && !rec.Flushed {
 			st.obs.store = append(st.obs.store, "flush-did-not-reach-this-request's-writer")
@@ -394,8 +636,11 @@ func (env *c05Env) serve3(id int, q rReq, prog []c05HOp, probe bool) (ro c05Obs,
 			st.obs.kind = 2
 		}
 	}()
-	return st.obs, st.inner
+	return st
 }
+
+// c05FanVal: what goroutine g of request id stores in round i
+func c05FanVal(id, g, i int) int { return id*1000 + 100*(g+1) + i }
 
 func c05HOpWire(op c05HOp) string {
 	switch op.Kind {
@@ -425,8 +670,8 @@ func c05HOpWire(op c05HOp) string {
 		return "10"
 	case "setSharedValues":
 		return wJoin("2", wStrs(c05SharedPristine[:op.A]))
-	case "nested":
-		return "5" // nothing happens to the outer context
+	case "nested", "forward":
+		return "5" // nothing happens to the outer context (what a forwarded request writes to the response: see c05Run)
 	case "setRequest":
 		if op.A == 0 {
 			return "12 9999\x005" // two ops: SetRequest, then the query cache is filled from the new request
@@ -446,8 +691,17 @@ func c05HOpWire(op c05HOp) string {
 
 func c05Run(ci any) Result {
 	c := ci.(*c05Case)
-	env := c05NewEnv()
+	env := c05NewEnvR(c.Recover)
 	var routes []rRoute
+	var wraps []bool
+	freshEnv := func() *c05Env {
+		f := c05NewEnvR(c.Recover)
+		for i, r := range routes {
+			f.register(r, wraps[i])
+		}
+		return f
+	}
+	freshMount := func() *c05Env { return c05NewEnvR(c.Recover).mount() }
 	ops := []string{"<nsteps>"}
 	nsteps := len(c.Steps)
 	var obsParts []string
@@ -469,8 +723,12 @@ func c05Run(ci any) Result {
 	maxParamBefore := 0
 	for _, s := range c.Steps {
 		if s.Register != nil {
-			env.register(*s.Register)
+			env.register(*s.Register, s.Wrap)
 			routes = append(routes, *s.Register)
+			wraps = append(wraps, s.Wrap)
+			if s.Wrap {
+				tags = append(tags, "route-with-wrapped-std-middleware")
+			}
 			ops = append(ops, "1", wStr(s.Register.Method), wStr(s.Register.Path), wInt(len(routes)-1))
 			if mp := rMaxParam(routes); mp > maxParamBefore && reqID > 0 {
 				tags = append(tags, "registration-raises-maxparam")
@@ -483,6 +741,7 @@ func c05Run(ci any) Result {
 		jobs = append(jobs, job{reqID, *s.Req, s.Prog, append([]rRoute(nil), routes...)})
 		var o c05Obs
 		var inner []c05Inner
+		var fwd []c05Fwd
 		if c.Concurrent == 0 && reqID == 2 && len(c.Steps)%2 == 0 {
 			// between two requests the application also registers a route with MORE parameters than any other on a
 			// host router, and serves a request for that host: no later request may fail, the new one included
@@ -528,7 +787,8 @@ func c05Run(ci any) Result {
 				ops = append(ops, "2", "7777", wInt(len(bops))+" "+strings.Join(bops, " "))
 				nsteps++
 			}
-			o, inner = env.serve3(reqID, *s.Req, s.Prog, s.Probe)
+			st := env.serve5(reqID, *s.Req, s.Prog, s.Probe, nil)
+			o, inner, fwd = st.obs, st.inner, st.fwd
 		}
 		{
 			progW := []string{}
@@ -537,7 +797,35 @@ func c05Run(ci any) Result {
 				progW = append(progW, wJoin("1", wStrs([]string{"q0", "q1", "q2", "q3", "q4", "q5"})), wJoin("1", wStrs(o.names)))
 				tags = append(tags, "spare-slot-probe")
 			}
+			if o.kind == 0 && o.hid < len(wraps) && wraps[o.hid] {
+				// echo.WrapMiddleware: SetRequest (the same request), SetResponse(NewResponse(..)), not undone
+				progW = append(progW, "15 0")
+			}
 			for _, op := range s.Prog {
+				if op.Kind == "panic" && c.Recover {
+					// the recover middleware ends the request here; the context goes back to the pool as it is
+					tags = append(tags, "panic-recovered-context-recycled")
+					break
+				}
+				if op.Kind == "fanout" {
+					// for the model: the values that are in the store when the goroutines have been joined
+					for g := 0; g < op.A; g++ {
+						progW = append(progW, wJoin("0", wInt(g), wInt(c05FanVal(reqID, g, 2))))
+					}
+					tags = append(tags, "handler-fans-out-on-its-context")
+					continue
+				}
+				if op.Kind == "forward" && len(fwd) > 0 {
+					// for this context a forwarded request is what it wrote to the response
+					if fwd[0].committed {
+						progW = append(progW, wJoin("6", wInt(fwd[0].status)))
+					}
+					if fwd[0].grew > 0 {
+						progW = append(progW, wJoin("7", wInt64(fwd[0].grew)))
+					}
+					fwd = fwd[1:]
+					continue
+				}
 				progW = append(progW, strings.Split(c05HOpWire(op), "\x00")...)
 			}
 			ops = append(ops, "0", wInt(reqID), wStr(s.Req.Method), wStr(s.Req.Path), wInt(len(progW))+" "+strings.Join(progW, " "))
@@ -545,20 +833,24 @@ func c05Run(ci any) Result {
 		if c.Concurrent == 0 {
 			obsParts = append(obsParts, o.wire())
 			for _, in := range inner {
-				tags = append(tags, "nested-request")
-				fresh := c05NewEnv()
-				for _, r := range routes {
-					fresh.register(r)
+				how := "nested in"
+				if in.id >= 2000 {
+					how = "served on the response of"
+					tags = append(tags, "forwarded-request")
+				} else {
+					tags = append(tags, "nested-request")
+				}
+				fresh := freshEnv()
+				if in.mount {
+					fresh = freshMount()
+					tags = append(tags, "second-echo-instance")
 				}
 				if want := fresh.serve(in.id, in.q, nil); in.obs.wire() != want.wire() {
-					fail(fmt.Sprintf("request %d nested in request %d (GET %q): handler observes %s, on a fresh Echo %s", in.id, reqID, in.q.Path, in.obs.wire(), want.wire()))
+					fail(fmt.Sprintf("request %d %s request %d (GET %q): handler observes %s, on a fresh Echo %s", in.id, how, reqID, in.q.Path, in.obs.wire(), want.wire()))
 				}
 			}
 			// model-free oracle: a fresh Echo with the same routes serving only this request
-			fresh := c05NewEnv()
-			for _, r := range routes {
-				fresh.register(r)
-			}
+			fresh := freshEnv()
 			want := fresh.serve(reqID, *s.Req, nil)
 			if o.wire() != want.wire() {
 				fail(fmt.Sprintf("request %d (%s %q): handler observes %s, on a fresh Echo %s", reqID, s.Req.Method, s.Req.Path, o.wire(), want.wire()))
@@ -580,12 +872,9 @@ func c05Run(ci any) Result {
 		tags = append(tags, "concurrent")
 		want := make([]string, len(jobs))
 		for i, j := range jobs {
-			fresh := c05NewEnv()
-			for _, r := range routes {
-				fresh.register(r)
-			}
-			want[i] = fresh.serve(j.id, j.q, nil).wire()
+			want[i] = freshEnv().serve(j.id, j.q, nil).wire()
 		}
+		env.mount()
 		got := make([]string, len(jobs))
 		var wg sync.WaitGroup
 		// two host routers with a route of their own: requests for them run concurrently with everything else and
@@ -657,6 +946,10 @@ func c05GenProg(r *rand.Rand) []c05HOp {
 	n := r.Intn(7)
 	var p []c05HOp
 	for i := 0; i < n; i++ {
+		if r.Intn(16) == 0 {
+			p = append(p, c05HOp{Kind: "fanout", A: 2 + r.Intn(3)})
+			continue
+		}
 		switch r.Intn(14) % 13 {
 		case 0:
 			p = append(p, c05HOp{Kind: "set", A: r.Intn(4), B: 1 + r.Intn(9)})
@@ -690,7 +983,7 @@ func c05GenProg(r *rand.Rand) []c05HOp {
 			p = append(p, c05HOp{Kind: "fail"})
 		case 12:
 			if r.Intn(3) == 0 {
-				p = append(p, c05HOp{Kind: "nested", S: []string{"/", "/a/n1", "/b/n1/n2", "/c/n1/n2/n3", "/files/n", "/nowhere"}[r.Intn(6)]})
+				p = append(p, c05GenSub(r))
 			} else if r.Intn(2) == 0 {
 				p = append(p, c05HOp{Kind: "setSharedValues", A: 1 + r.Intn(6)})
 			} else if r.Intn(2) == 0 {
@@ -703,6 +996,17 @@ func c05GenProg(r *rand.Rand) []c05HOp {
 	return p
 }
 
+// c05GenSub: the handler causes another request to be served while its own is in progress: on a recorder of its
+// own (nested) or on this request's response (forward); by the same Echo or by the application's second instance
+func c05GenSub(r *rand.Rand) c05HOp {
+	op := c05HOp{Kind: []string{"nested", "nested", "forward"}[r.Intn(3)], S: []string{"/", "/a/n1", "/b/n1/n2", "/c/n1/n2/n3", "/files/n", "/nowhere"}[r.Intn(6)]}
+	if r.Intn(3) == 0 {
+		op.A = 1
+		op.S = []string{"/", "/a/n1", "/b/n1/n2", "/nowhere"}[r.Intn(4)]
+	}
+	return op
+}
+
 func c05Gen(r *rand.Rand, tier string) []any {
 	n := 1500
 	if tier == "thorough" {
@@ -710,12 +1014,22 @@ func c05Gen(r *rand.Rand, tier string) []any {
 	}
 	var out []any
 	for i := 0; i < n; i++ {
-		c := &c05Case{}
+		c := &c05Case{Recover: r.Intn(3) == 0}
 		var routes []rRoute
+		wrapSome := r.Intn(3) == 0
+		// overlap: a history aimed at two requests being in progress at once after something unusual happened to
+		// a pooled object (a recovered panic below a wrapped middleware, a request served on another's response)
+		overlap := r.Intn(8) == 0
+		if overlap {
+			c.Recover, wrapSome = true, true
+		}
 		reg := func() {
 			rt := rRoute{Method: []string{"GET", "GET", "POST"}[r.Intn(3)], Path: c05Paths[r.Intn(len(c05Paths))]}
+			if overlap {
+				rt.Method = "GET"
+			}
 			routes = append(routes, rt)
-			c.Steps = append(c.Steps, c05Step{Register: &rt})
+			c.Steps = append(c.Steps, c05Step{Register: &rt, Wrap: wrapSome && r.Intn(2) == 0})
 		}
 		k := 1 + r.Intn(3)
 		for j := 0; j < k; j++ {
@@ -727,7 +1041,24 @@ func c05Gen(r *rand.Rand, tier string) []any {
 				reg()
 			}
 			q := rReq{Method: rGenMethod(r, routes), Path: rGenPath(r, routes)}
-			c.Steps = append(c.Steps, c05Step{Req: &q, Prog: c05GenProg(r), Probe: r.Intn(3) == 0})
+			prog := c05GenProg(r)
+			if r.Intn(6) == 0 {
+				// the fan-out is the first thing that touches the store of the recycled context
+				prog = append([]c05HOp{{Kind: "fanout", A: 2 + r.Intn(3)}}, prog...)
+			}
+			if overlap {
+				// first half of the history: panics and forwards; second half: sub-requests in the middle of the handler
+				var extra c05HOp
+				if j < nreq/2 {
+					extra = []c05HOp{{Kind: "panic"}, {Kind: "forward", S: "/a/n1"}, {Kind: "forward", S: "/", A: 1}, {Kind: "forward", S: "/nowhere"}}[r.Intn(4)]
+				} else {
+					extra = c05GenSub(r)
+				}
+				at := r.Intn(len(prog) + 1)
+				prog = append(prog[:at:at], append([]c05HOp{extra}, prog[at:]...)...)
+				q.Method = "GET"
+			}
+			c.Steps = append(c.Steps, c05Step{Req: &q, Prog: prog, Probe: r.Intn(3) == 0})
 		}
 		if tier == "thorough" && i%10 == 0 || tier != "thorough" && i%25 == 0 {
 			c.Concurrent = 4 + r.Intn(12)
@@ -750,6 +1081,19 @@ func c05Gen(r *rand.Rand, tier string) []any {
 func c05Shrink(ci any) []any {
 	c := ci.(*c05Case)
 	var out []any
+	if c.Recover {
+		d := *c
+		d.Recover = false
+		out = append(out, &d)
+	}
+	for i, s := range c.Steps {
+		if s.Wrap {
+			d := *c
+			d.Steps = append([]c05Step(nil), c.Steps...)
+			d.Steps[i].Wrap = false
+			out = append(out, &d)
+		}
+	}
 	for i := range c.Steps {
 		if len(c.Steps) <= 1 {
 			break
@@ -774,7 +1118,7 @@ func c05Shrink(ci any) []any {
 func init() {
 	register(&Prop{
 		ID:             "C05",
-		Rule:           "histories of 2-12 requests through ONE Echo (routes with 0-4 parameters and wildcards) whose handlers dirty every setter (Set, SetParamNames/Values, SetPath, SetLogger, QueryParam cache, WriteHeader/Write, Before/After hooks), panic or fail midway, interleaved with route registrations (some raising the max parameter count); every request's observation at handler start is compared with a FRESH Echo serving only that request; 4% (quick) / 10% (thorough) of the histories are served from 4-15 goroutines (oracle only); non-trivial = history with >= 2 requests, or a registration raising maxParam after a request, or concurrent; distinct = distinct model op lines / cases",
+		Rule:           "histories of 2-12 requests through ONE Echo (routes with 0-4 parameters and wildcards) whose handlers dirty every setter (Set, SetParamNames/Values, SetPath, SetLogger, QueryParam cache, WriteHeader/Write, Before/After hooks), panic or fail midway (a third of the applications install middleware.Recover: the context of a panicking request is recycled as it is), serve another request in the middle of their own (on a recorder of its own, or ON THEIR OWN RESPONSE: forward / mount; by the same Echo or by a second instance), fan out into 2-4 goroutines that Set/Get on the request's own context (also as the first use of the store after recycling); a third of the applications put echo.WrapMiddleware(net/http middleware) on some routes; interleaved with route registrations (some raising the max parameter count); every request's observation at handler start is compared with a FRESH Echo serving only that request; 4% (quick) / 10% (thorough) of the histories are served from 4-15 goroutines (oracle only); non-trivial = history with >= 2 requests, or a registration raising maxParam after a request, or concurrent; distinct = distinct model op lines / cases",
 		New:            func() any { return &c05Case{} },
 		Gen:            c05Gen,
 		Run:            c05Run,
